@@ -261,5 +261,6 @@ def run(repo: Repo, tier: str) -> Report:
             o = got.get(role)
             rep.ob("R-REVERSAL", s.file, n, role + " (position-independent, sign-even summand over the whole extent)", o is not None and o.ok,
                    o.detail if o is not None else "criterion not found", o.stmt if o is not None else f"{n}: {role}", line=o.line if o else 0)
+    c04.lc_from_raw(rep, kernels, "R-USESHAPE")
     rep.floor("C06 obligations", len(rep.obls), 35)
     return rep
